@@ -229,4 +229,4 @@ func classifyR(got map[string]int64, exp want, op ROp) string {
 	}
 }
 
-func TestReceiverOps(t *testing.T) { vt.Run(t, cR, vt.N(1500, 40000), genR, runR) }
+func TestReceiverOps(t *testing.T) { vt.Run(t, cR, vt.N(2000, 40000), genR, runR) }
